@@ -8,14 +8,27 @@ from . import error
 from . import utils
 
 
+def _first_error(values):
+    # an error is truthy in Python; as a tested condition it must win instead
+    for value in values:
+        if isinstance(value, error.XLError):
+            return value
+    return None
+
+
 @dispatcher.register_for('AND')
 def AND(*args):
-    args = utils.iflatten(args)
+    args = utils.flatten(args)
+    err = _first_error(args)
+    if err is not None:
+        return err
     return all(args)
 
 
 @dispatcher.register_for('IF')
 def IF(test, then, otherwise):
+    if isinstance(test, error.XLError):
+        return test
     return then if test else otherwise
 
 
@@ -31,24 +44,34 @@ def IFNA(value, value_if_na):
 
 @dispatcher.register_for('NOT')
 def NOT(boolean):
+    if isinstance(boolean, error.XLError):
+        return boolean
     return not boolean
 
 
 @dispatcher.register_for('XOR')
 def XOR(*args):
-    args = utils.iflatten(args)
+    args = utils.flatten(args)
+    err = _first_error(args)
+    if err is not None:
+        return err
     result = sum(bool(a) for a in args)
     return bool(result & 1)
 
 
 @dispatcher.register_for('OR')
 def OR(*args):
-    args = utils.iflatten(args)
+    args = utils.flatten(args)
+    err = _first_error(args)
+    if err is not None:
+        return err
     return any(args)
 
 
 @dispatcher.register_for('SWITCH')
 def SWITCH(target_value, *args):
+    if isinstance(target_value, error.XLError):
+        return target_value
     if len(args) <= 1:
         return error.NOT_AVAILABLE
     argc = len(args)
@@ -64,6 +87,8 @@ def SWITCH(target_value, *args):
 @dispatcher.register_for('IFS')
 def IFS(*args):
     for pair in zip(args[::2], args[1::2]):
+        if isinstance(pair[0], error.XLError):
+            return pair[0]
         if pair[0]:
             return pair[1]
     return error.NOT_AVAILABLE
